@@ -37,6 +37,10 @@ def histories(bg, rng, tier):
             toks[idx] = "%x" % explicit
             c = " ".join(toks)
         return c
+    # continuing an existing module: fresh ids start at its header bound
+    for b in (1, 5, 0x100, 0x7fffffff, 0xfffffff0):
+        yield ["new_from_module %x" % b, "id", "type_void", "id", "type_void", "begin_function 1 _ 0 3", "begin_block _", "ret", "end_function", "id"]
+        yield ["new_from_module %x" % b, "type_bool", "capability 1", "id"]
     # every type method: request twice implicitly, once explicitly, again implicitly, different operands
     for name in tms:
         seq = [tcall(name, 0, None), tcall(name, 0, None), tcall(name, 1, None), tcall(name, 0, 0x500), tcall(name, 0, None), "id", tcall(name, 1, None)]
